@@ -7,6 +7,7 @@ CONSTANTS
   ConsumerSet = {"c1", "c2"}
   Coords = {"A", "X"}
   OpKinds = {"CreateStream", "DeleteStream", "Pause", "Resume", "SetReadonly", "ShrinkISR", "ExpandISR", "ChangeLeader", "PublishActivity"}
+  Variants = {"custom"}
   MaxOps = 3
   MaxSnaps = 1
   MaxRestarts = 1
